@@ -70,7 +70,7 @@ func (p *pg) genCrash(profile string) (Config, Plan) {
 		c.Meta = "bolt"
 	}
 	mix := p.swarmMix(kinds, "append")
-	n := 6 + p.r.Intn(30)
+	n := p.ops(6 + p.r.Intn(30))
 	var plan Plan
 	small := profile == "C02" && p.r.Intn(2) == 0
 	for i := 0; i < n; i++ {
